@@ -168,6 +168,11 @@ func runCorrupt(c *corr.Ctx) error {
 				return err
 			}
 			orig, _ := hex.DecodeString(d.Orig)
+			if d.Kind == "sst" {
+				// an SST case is re-run by regenerating the family (the table is built by the code
+				// under test); nothing to replay from bytes alone
+				continue
+			}
 			if d.Kind == "wal" {
 				cs, err := walFlipCase(c, root, d.Recs, orig, d.Bit)
 				if err != nil {
